@@ -220,6 +220,10 @@ func TestC02Pty(t *testing.T) {
 type C03PtyCase struct {
 	Chunks []string `json:"chunks"`
 	GapsMS []int    `json:"gaps_ms"` // pause after each chunk
+	// QuietMuteMS > 0: before any output, the operator presses Ctrl+O while the
+	// shell is quiet and this many ms pass (more than the two-second pause, so
+	// the mute is over): what is sent then was not deliberately muted.
+	QuietMuteMS int `json:"quiet_mute_ms,omitempty"`
 }
 
 func runC03Pty(t testing.TB, c C03PtyCase) (key, what string, classes []string) {
@@ -240,6 +244,11 @@ func runC03Pty(t testing.TB, c C03PtyCase) (key, what string, classes []string) 
 	defer io.Close()
 	if !p.WaitOutput(15*time.Second, "Shell is ready") {
 		return "HARNESS", "shell did not attach: " + clip(p.Output(), 300), nil
+	}
+	if c.QuietMuteMS > 0 {
+		p.Type("\x0f")
+		time.Sleep(time.Duration(c.QuietMuteMS) * time.Millisecond)
+		classes = append(classes, "L4-after-an-expired-mute")
 	}
 	const begin, end = "<<BEGIN-c03>>", "<<END-c03>>"
 	if err := io.Send([]byte(begin + "\n")); err != nil {
@@ -297,6 +306,9 @@ func genC03Pty() *rapid.Generator[C03PtyCase] {
 			}
 			c.Chunks = append(c.Chunks, sb.String())
 			c.GapsMS = append(c.GapsMS, rapid.SampledFrom([]int{0, 0, 0, 2, 20}).Draw(t, "gap"))
+		}
+		if rapid.IntRange(0, 4).Draw(t, "quietmute") == 0 {
+			c.QuietMuteMS = rapid.SampledFrom([]int{3500, 4500}).Draw(t, "quietms")
 		}
 		return c
 	})
